@@ -1866,6 +1866,20 @@ func (bc *Blockchain) AddBlock(block *block.Block) error {
 		if expectedH != block.Hash() {
 			return fmt.Errorf("invalid block: hash mismatch: expected %s, got %s", expectedH.StringLE(), block.Hash().StringLE())
 		}
+		if !bc.config.SkipBlockVerification {
+			// The hash doesn't cover the witness and the known header was
+			// verified with its own one.
+			known, err := bc.GetHeader(expectedH)
+			if err != nil || !sameWitnesses([]transaction.Witness{known.Script}, []transaction.Witness{block.Script}) {
+				prev, err := bc.GetHeader(block.PrevHash)
+				if err != nil {
+					return fmt.Errorf("invalid block: can't get previous header: %w", err)
+				}
+				if err = bc.verifyHeaderWitnesses(&block.Header, prev); err != nil {
+					return fmt.Errorf("invalid block: %w", err)
+				}
+			}
+		}
 	}
 	if !bc.config.SkipBlockVerification {
 		merkle := block.ComputeMerkleRoot()
